@@ -786,3 +786,108 @@ Example ex_tsv :
            [true; false; true] true [1; 0; 1]
   = Ok [[10; 20]; [12; 22]].
 Proof. vm_compute. reflexivity. Qed.
+
+(* ---- outside the two failure classes the export returns ----------------------- *)
+Section Total.
+  Variable A : Type.
+  Variables (d z : A) (enum : Z -> A).
+
+  Definition feat_guard (ds : dset A) (filtered : bool) (f : feat A) : bool :=
+    forallb (part_guard A ds filtered (f_kind f)) (f_parts f).
+
+  Lemma lookup_all_total ds filtered names :
+    forallb (fun n => match lookup A n (ds_feats ds) with
+                      | None => false
+                      | Some f => feat_guard ds filtered f
+                      end) names = true ->
+    exists fs, lookup_all A ds names = Ok fs
+               /\ Forall (fun f => feat_guard ds filtered f = true) fs.
+  Proof.
+    induction names as [|n t IH]; intros H; cbn [lookup_all].
+    - exists []. split; [reflexivity|constructor].
+    - cbn [forallb] in H. apply andb_prop in H. destruct H as [H1 H2].
+      destruct (lookup A n (ds_feats ds)) as [f|]; [|discriminate].
+      destruct (IH H2) as (fs & -> & HF). cbn [bind].
+      exists (f :: fs). split; [reflexivity|constructor; assumption].
+  Qed.
+
+  Lemma in_range_where n f : len f <= n -> in_range n (where_ f) = true.
+  Proof.
+    intros H. unfold in_range. apply forallb_forall. intros j Hj.
+    apply where_in_range in Hj. lia.
+  Qed.
+
+  Lemma part_guard_len ds filtered k p :
+    part_guard A ds filtered k p = true -> len (p_data p) = ds_len ds.
+  Proof. unfold part_guard. intros H. apply andb_prop in H. lia. Qed.
+
+  Lemma feat_calls_total cfg ds filt filtered f :
+    len filt = ds_len ds -> feat_guard ds filtered f = true ->
+    exists cs, feat_calls A d z enum cfg ds
+                 (if filtered then Some filt else None) f = Ok cs.
+  Proof.
+    intros Hlen Hg. unfold feat_guard in Hg. rewrite forallb_forall in Hg.
+    assert (Hwhole : ds_hdf5 ds = true \/ filtered = false ->
+              exists cs, bind_all A (part_whole A enum (f_name f) (f_kind f))
+                           (f_parts f) = Ok cs).
+    { intros Hfast. apply bind_all_total. intros p Hp. specialize (Hg p Hp).
+      unfold part_guard in Hg. unfold part_whole.
+      destruct (f_kind f); eauto;
+        (replace (p_fancy p) with true
+           by (destruct (p_fancy p), (p_slice p), filtered, (ds_hdf5 ds);
+               cbn in *; destruct Hfast; congruence || lia); eauto). }
+    unfold feat_calls. destruct filtered; [|apply Hwhole; now right].
+    destruct (forallb (fun b => b) filt && ds_hdf5 ds) eqn:Ef.
+    - apply Hwhole. left. apply andb_prop in Ef. tauto.
+    - unfold store_filtered. destruct (where_ filt) as [|i0 t0] eqn:Ew; [eauto|].
+      clear Ew. apply bind_all_total. intros p Hp. specialize (Hg p Hp).
+      pose proof (part_guard_len _ _ _ _ Hg) as Hl.
+      assert (Hr : in_range (len (p_data p)) (where_ filt) = true)
+        by (apply in_range_where; lia).
+      unfold part_guard in Hg. unfold part_filtered, part_stacks.
+      replace (len filt =? len (p_data p)) with true by lia. rewrite Hr.
+      destruct (f_kind f); eauto;
+        (destruct (p_slice p) eqn:Es; [|cbn [bind]; eauto];
+         replace (p_fancy p) with true
+           by (destruct (p_fancy p); cbn in *; congruence || lia);
+         cbn [negb bind]; eauto).
+  Qed.
+
+  Lemma filter_arr_equal ds filt filtered skip fs :
+    (forall x, In x (lengths A fs) -> x = ds_len ds) ->
+    filter_arr A ds filt filtered skip fs = if filtered then Some filt else None.
+  Proof.
+    intros H. unfold filter_arr. destruct skip; [reflexivity|].
+    destruct (lengths A fs) as [|h t] eqn:El; [reflexivity|].
+    rewrite (H _ (zmin_in h t)), (H _ (zmax_in h t)), Z.eqb_refl. reflexivity.
+  Qed.
+
+  Lemma export_total_partial cfg ds filt filtered skip req :
+    len filt = ds_len ds ->
+    export_guard A ds filtered req = true ->
+    exists calls cnt,
+      export A d z enum cfg ds filt filtered skip req = Ok (calls, cnt).
+  Proof.
+    intros Hlen Hg. unfold export_guard in Hg.
+    destruct (lookup_all_total ds filtered (sortset req) Hg) as (fs & El & HF).
+    unfold export. rewrite El. cbn [bind].
+    rewrite Forall_forall in HF.
+    rewrite filter_arr_equal.
+    - destruct (bind_all_total A (feat_calls A d z enum cfg ds
+                   (if filtered then Some filt else None)) fs) as (calls & ->).
+      + intros f Hf. apply feat_calls_total; auto.
+      + cbn [bind]. eauto.
+    - intros x Hx. unfold lengths in Hx. apply in_flat_map in Hx.
+      destruct Hx as (f & Hf & Hx). apply in_map_iff in Hx.
+      destruct Hx as (p & <- & Hp). specialize (HF f Hf).
+      unfold feat_guard in HF. rewrite forallb_forall in HF.
+      eapply part_guard_len, HF, Hp.
+  Qed.
+End Total.
+
+Example ex_guard :
+  export_guard Z (mkDs Z false 4 4
+      [mkFeat Z 0 KScalar [mkPart Z 0 true true 8 [10; 11; 12; 13]];
+       mkFeat Z 1 KImage [mkPart Z 0 false false 54 [20; 21; 22; 23]]])
+    true [1; 0; 1] = true.
+Proof. vm_compute. reflexivity. Qed.
